@@ -13,7 +13,11 @@ use crate::verif_net as net;
 use crate::verif_net::{PipeOpts, TcpStream as SimStream};
 use vcore::{jarr, jobj, Check, CheckInfo, Json, Outcome, Rng, Tolerate, Violation};
 
-pub(crate) struct FsmWire;
+pub(crate) struct FsmWire {
+    /// "C07": the FSM and collision oracle; "C18": the same histories with a monitoring client that
+    /// subscribes whenever one connection is Established (the other one may just have lost a collision)
+    pub prop: &'static str,
+}
 
 const PEER_AS: u32 = 65001;
 
@@ -44,13 +48,17 @@ fn role_name(r: usize) -> &'static str {
 
 impl Check for FsmWire {
     fn property(&self) -> &'static str {
-        "C07"
+        self.prop
     }
     fn tier(&self) -> &'static str {
         "D"
     }
     fn name(&self) -> &'static str {
-        "fsm-wire"
+        if self.prop == "C18" {
+            "collision-then-subscribe"
+        } else {
+            "fsm-wire"
+        }
     }
 
     fn generate(&self, seed: u64, thorough: bool) -> Json {
@@ -99,12 +107,22 @@ impl Check for FsmWire {
     fn execute(&self, case: &Json, tol: &Tolerate) -> Outcome {
         let case = case.clone();
         let tol = tol.clone();
-        let mut out = run_sim(case.i("sub", 1) as u64, move || run(case, tol));
-        fix_task_panic(&mut out, "C07");
+        let prop = self.prop;
+        let mut out = run_sim(case.i("sub", 1) as u64, move || run(case, tol, prop));
+        fix_task_panic(&mut out, self.prop);
         out
     }
 
     fn info(&self) -> CheckInfo {
+        if self.prop == "C18" {
+            return CheckInfo {
+                rule: "the histories of C07's `fsm-wire` (one neighbour, connections in both directions at the same time, collisions, refused second attempts, teardowns of one connection while the other lives), judged by a monitoring client instead of the FSM reference: at every quiescent point at which one connection is Established the neighbour announces a prefix on it and a WatchEvent client (peer events, pre-policy Adj-RIB-In with the initial snapshot) subscribes; after its initial phase it must have been told that the neighbour is up and hold every path the RIB holds for it. non-trivial = a client subscribed while both directions had had a connection".into(),
+                components_real: vec!["GrpcService::watch_event, TableManager::subscribe, the per-neighbour state shared by the two connections (PeerState), ConnArbiter, PeerSession::{apply_outputs, session_loop}".into()],
+                components_stubbed: vec!["TCP, clock, the neighbour; the gRPC transport".into()],
+                assumptions: vec![],
+                bounds: "<=40 ops, one neighbour, one prefix".into(),
+            };
+        }
         CheckInfo {
             rule: "one neighbour, both connection roles: the peer connects to the DUT and/or lets the DUT's active-connect loop in; per connection a hand-driven sequence of OPEN (acceptable / wrong AS / identifier 0 or multicast / hold time 1 / version 3), KEEPALIVE, UPDATE, ROUTE-REFRESH, NOTIFICATION, bad-length frame, FIN, RST, operator shutdown, UpdatePeer with a setting that needs a new session (all connections ended, fresh arbiter), waits across the connect-retry timers; both orderings of the BGP identifiers. After every op at quiescence a reference FSM per role (from the statement) is compared with the arbiter's state; invariants: at most one connection in OpenConfirm/Established, Established only via OpenSent -> acceptable OPEN -> OpenConfirm -> KEEPALIVE, a disallowed message answered by an FSM-error NOTIFICATION naming the state, every teardown frees the slot, collision survivor = Established one else the higher identifier's connection and the loser gets Cease/collision; bounded liveness: once the peer behaves, Established is reached within 60 virtual seconds. non-trivial = both roles had a connection at the same time or a collision was resolved".into(),
             components_real: vec!["accept_connection, ConnArbiter, PeerSession::{run,session_loop,run_select,rx_msg,apply_outputs}, apply_disconnect".into(), "fsm::{PeerFsm,Connection}".into(), "the active-connect retry loop (harness replacement over the simulated transport, same structure)".into(), "packet::PeerCodec::try_parse (OPEN validation)".into(), "GrpcService::shutdown_peer".into()],
@@ -123,7 +141,7 @@ struct Side {
     last_remote_id: u32,
 }
 
-async fn run(case: Json, tol: Tolerate) -> Outcome {
+async fn run(case: Json, tol: Tolerate, prop: &'static str) -> Outcome {
     let mut out = Outcome::default();
     let remote_higher = case.get("remote_higher").map(|b| b.as_bool()).unwrap_or(false);
     let peer_addr: IpAddr = "10.0.0.1".parse().unwrap();
@@ -156,10 +174,14 @@ async fn run(case: Json, tol: Tolerate) -> Outcome {
 
     macro_rules! fail {
         ($class:expr, $($arg:tt)*) => {{
-            let v = Violation::new(format!("C07/{}", $class), format!($($arg)*));
-            if out.violate(&tol, v) { out.vtime_ms = net::now_ms(); out.nontrivial = both_seen || collisions > 0; return out; }
+            // the FSM oracle speaks for C07 only
+            if prop == "C07" {
+                let v = Violation::new(format!("C07/{}", $class), format!($($arg)*));
+                if out.violate(&tol, v) { out.vtime_ms = net::now_ms(); out.nontrivial = both_seen || collisions > 0; return out; }
+            }
         }};
     }
+    let mut subscribed_after_both = false;
 
     let ops: Vec<Json> = case.get("ops").map(|o| o.arr().to_vec()).unwrap_or_default();
     for (opi, op) in ops.iter().enumerate() {
@@ -559,6 +581,61 @@ async fn run(case: Json, tol: Tolerate) -> Outcome {
             }
             continue;
         }
+        if prop == "C18" {
+            if let Some(k) = (0..2).find(|k| real[*k] == M::Established && sides[*k].spk.conn.is_some() && sides[*k].spk.state != SpkState::Closed) {
+                // the neighbour announces a prefix on its established connection, then a client subscribes
+                let net0 = packet::PathNlri { path_id: 0, nlri: packet::Nlri::V4(bgp::Ipv4Net { addr: Ipv4Addr::new(10, 7, 0, 0), mask: 24 }) };
+                let attrs = vec![packet::Attribute::new_with_value(packet::Attribute::ORIGIN, 0).unwrap(), packet::Attribute::new_with_bin(packet::Attribute::AS_PATH, { let mut b = vec![2u8, 1]; b.extend_from_slice(&PEER_AS.to_be_bytes()); b }).unwrap()];
+                sides[k].spk.announce(Family::IPV4, vec![net0], Some(bgp::Nexthop::V4(Ipv4Addr::new(192, 0, 2, 1))), attrs);
+                for _ in 0..3 {
+                    w.quiesce().await;
+                }
+                let in_rib: usize = w.tables.collect_paths(table::TableQuery::AdjIn(peer_addr), Family::IPV4, vec![], true).iter().map(|d| d.paths.len()).sum();
+                use api::watch_event_request::table::{filter::Type as FT, Filter};
+                let req = api::WatchEventRequest {
+                    peer: Some(api::watch_event_request::Peer {}),
+                    table: Some(api::watch_event_request::Table { filters: vec![Filter { r#type: FT::Adjin as i32, init: true, peer_address: String::new(), peer_group: String::new() }] }),
+                    batch_size: 0,
+                };
+                if let Ok(r) = w.grpc.watch_event(tonic::Request::new(req)).await {
+                    use futures::{FutureExt, StreamExt};
+                    let mut st = r.into_inner();
+                    let (mut told_up, mut routes) = (false, 0usize);
+                    for _ in 0..4 {
+                        w.quiesce().await;
+                        while let Some(Some(Ok(ev))) = st.next().now_or_never() {
+                            match ev.event {
+                                Some(api::watch_event_response::Event::Peer(pe)) => {
+                                    if let Some(p) = pe.peer {
+                                        let est = p.state.as_ref().map(|s| s.session_state == api::peer_state::SessionState::Established as i32).unwrap_or(false);
+                                        if p.conf.as_ref().map(|c| c.neighbor_address == peer_addr.to_string()).unwrap_or(false) {
+                                            told_up = est;
+                                        }
+                                    }
+                                }
+                                Some(api::watch_event_response::Event::Table(te)) => routes += te.paths.iter().filter(|p| !p.is_withdraw).count(),
+                                None => {}
+                            }
+                        }
+                    }
+                    out.hit("probe.client-subscribed-while-established");
+                    if both_seen {
+                        subscribed_after_both = true;
+                    }
+                    if in_rib > 0 && (!told_up || routes < in_rib) {
+                        let v = Violation::new(
+                            if told_up { "C18/watch/content/route-missing-from-snapshot" } else { "C18/watch/established-neighbour-missing-from-initial-peer-list" },
+                            format!("op {} {}: the neighbour's {} connection is Established and the RIB holds {} path(s) of it; a client that subscribes now is told up={} and sent {} path(s) (arbiter: active {:?} passive {:?})", opi, op.to_compact(), role_name(k), in_rib, told_up, routes, a, p),
+                        );
+                        if out.violate(&tol, v) {
+                            out.vtime_ms = net::now_ms();
+                            out.nontrivial = subscribed_after_both;
+                            return out;
+                        }
+                    }
+                }
+            }
+        }
         let live = real.iter().filter(|s| matches!(s, M::OpenConfirm | M::Established)).count();
         if live > 1 {
             fail!("collision/two-connections-in-openconfirm-or-established", "op {} {}: active {:?} passive {:?}", opi, op.to_compact(), a, p);
@@ -577,7 +654,7 @@ async fn run(case: Json, tol: Tolerate) -> Outcome {
         }
     }
     out.count("probe.collisions", collisions);
-    out.nontrivial = both_seen || collisions > 0;
+    out.nontrivial = if prop == "C18" { subscribed_after_both } else { both_seen || collisions > 0 };
     out.vtime_ms = net::now_ms();
     out
 }
